@@ -467,7 +467,7 @@ def r63(ctx, repo):
         out = {}
         for n in walk(func):
             if isinstance(n, ast.Compare) and len(n.ops) == 1 and isinstance(
-                    n.ops[0], ast.In):
+                    n.ops[0], (ast.In, ast.NotIn)):
                 c = n.comparators[0]
                 if is_self_attr(c):
                     out[c.attr] = n
@@ -858,7 +858,7 @@ def r66(ctx, repo):
                f"plugin '{orig}' does not reach AncillaryFeature.{kwname}",
                node=call, label=f"plugin pass-through {kwname}")
     rel = "dclab/rtdc_dataset/feat_temp.py"
-    stf = repo.func(rel, "set_temporary_feature")
+    stf = inline_helpers(repo, rel, repo.func(rel, "set_temporary_feature"))
     # on the hierarchy branch every normal path to the exit passes
     # rejuvenate() after the value was handed to the root
     scfg = CFG(stf)
